@@ -105,10 +105,13 @@ def _history_shard(k):
 
         res = ComponentResult()
         max_len = 3 if tier == "thorough" else 2
-        res.bound = f"all histories of length <= {max_len} over {len(histories._ops())} operations x in-place/copy, {len(corpus.DOCS)} documents" + (", plus seeded random histories up to length 8" if tier == "thorough" else "")
+        res.bound = f"all histories of length <= {max_len} over {len(histories._ops())} operations x in-place/copy, {4 if tier == 'thorough' else len(corpus.DOCS)} documents" + (", plus seeded random histories up to length 8" if tier == "thorough" else "")
         res.rule = "history = sequence of (operation, inplace?) on one SVG object; non-trivial = contains at least one mutating step; compared (canonical XML / exception type) with the same history re-parsed between steps"
         distinct = set()
         docs = list(corpus.DOCS.items())
+        if tier == "thorough":
+            # length-3 histories are 100 000 per document: keep the four documents that exercise every kind of operation
+            docs = [(k, v) for k, v in docs if k in ("shapes", "use", "nested", "no_shapes")]
         i = 0
         for h in histories.enumerate_histories(max_len, seed, random_long=400 if tier == "thorough" else 0):
             i += 1
